@@ -1407,6 +1407,61 @@ fn c07_connack_failing() {
     std::mem::forget(r); std::mem::forget(events); std::mem::forget(st);
 }
 
+// recording outbound alias resolver: counts resets and remembers the maximum it was reset with
+static mut AR_RESETS: u32 = 0;
+static mut AR_MAX: u16 = 0;
+struct RecordingResolver {}
+impl crate::alias::OutboundAliasResolver for RecordingResolver {
+    fn reset_for_new_connection(&mut self, max_aliases: u16) { unsafe { AR_RESETS += 1; AR_MAX = max_aliases; } }
+    fn resolve_and_apply_topic_alias(&mut self, _alias: &Option<u16>, _topic: &str) -> crate::alias::OutboundAliasResolution {
+        crate::alias::OutboundAliasResolution { skip_topic: false, alias: None }
+    }
+}
+
+// @gv props=C07,C17,C14 tier=quick required=yes fns=ProtocolState::handle_connack,build_negotiated_settings,ProtocolState::initialize_slow_start,ProtocolState::apply_session_present_to_connection,InboundAliasResolver::reset_for_new_connection
+// @gv bounds="successful CONNACK while PendingConnack, nothing queued; symbolic: session-present flag, topic alias maximum (absent or any u16), server keep-alive (absent or any u16), receive maximum (absent or any non-zero u16), arrival time (seconds); one inbound alias binding left over from the previous connection; outbound resolver = recorder"
+// @gv timeout=900 mem=8
+#[kani::proof]
+#[kani::unwind(6)]
+#[kani::stub(std::fmt::format, stub_format)]
+fn c07_connack_success() {
+    unsafe { AR_RESETS = 0; AR_MAX = 0; }
+    let mut st = mk_state(ProtocolStateType::PendingConnack);
+    st.connack_timeout_timepoint = Some(at(30));
+    st.has_connected_successfully = kani::any();
+    st.outbound_alias_resolver = std::cell::RefCell::new(Box::new(RecordingResolver {}));
+    // binding left over from the previous connection
+    st.inbound_alias_resolver = crate::alias::InboundAliasResolver::new(5);
+    { let mut t = "old".to_string(); let b = st.inbound_alias_resolver.resolve_topic_alias(&Some(2), &mut t); assert!(b.is_ok()); std::mem::forget(b); }
+    st.ping_timeout_timepoint = if kani::any() { Some(at(3)) } else { None };
+    let session_present: bool = kani::any();
+    let tam: Option<u16> = if kani::any() { Some(kani::any()) } else { None };
+    let ska: Option<u16> = if kani::any() { Some(kani::any()) } else { None };
+    let rm: Option<u16> = if kani::any() { let v: u16 = kani::any(); kani::assume(v != 0); Some(v) } else { None };
+    let secs: u32 = kani::any();
+    let now = zero_instant() + Duration::from_secs(secs as u64);
+    let mut events: VecDeque<PacketEvent> = VecDeque::new();
+    let r = {
+        let mut ctx = net_ctx(&mut events, now);
+        st.handle_connack(Box::new(MqttPacket::Connack(ConnackPacket { session_present, topic_alias_maximum: tam, server_keep_alive: ska, receive_maximum: rm, ..Default::default() })), &mut ctx)
+    };
+    assert!(r.is_ok());
+    assert!(st.state == ProtocolStateType::Connected && st.has_connected_successfully, "gv: a successful CONNACK connects the engine and is remembered for the rejoin policy");
+    assert!(st.connack_timeout_timepoint.is_none(), "gv: the CONNACK timeout is disarmed by the CONNACK");
+    assert!(unsafe { AR_RESETS } == 1 && unsafe { AR_MAX } == tam.unwrap_or(0), "gv: every new connection starts with an empty outbound alias table limited by the server's Topic Alias Maximum");
+    { let mut t = String::new(); let b = st.inbound_alias_resolver.resolve_topic_alias(&Some(2), &mut t);
+      assert!(b.is_err(), "gv: inbound alias bindings never survive into a new connection"); std::mem::forget(b); }
+    let k = match &st.current_settings { Some(s) => s.server_keep_alive, None => { assert!(false, "gv: settings negotiated"); 0 } };
+    let configured = st.config.connect_options.keep_alive_interval_seconds.unwrap_or(0);
+    assert!(k == ska.unwrap_or(configured), "gv: the server's keep-alive overrides the client's");
+    assert!(st.current_settings.as_ref().unwrap().receive_maximum_from_server == rm.unwrap_or(65535), "gv: receive maximum 65535 when the CONNACK has none");
+    assert!(st.ping_timeout_timepoint.is_none(), "gv: no PINGREQ is outstanding on a new connection");
+    if k > 0 { assert!(st.next_ping_timepoint == Some(now + Duration::from_secs(k as u64)), "gv: keep-alive is measured from the CONNACK"); }
+    else { assert!(st.next_ping_timepoint.is_none(), "gv: keep-alive 0 disables pings"); }
+    assert!(events.len() == 1 && matches!(events.front(), Some(PacketEvent::Connack(c)) if c.session_present == session_present), "gv: the CONNACK is surfaced exactly once");
+    std::mem::forget(r); std::mem::forget(events); std::mem::forget(st);
+}
+
 // ------------------------------------------------------------------------------------------------
 // C11 handler guards and absorbing states
 // ------------------------------------------------------------------------------------------------
@@ -2133,3 +2188,277 @@ fn send_loop_body(shape: u8) {
 }
 
 include!("protocol_gen.rs");
+
+// ------------------------------------------------------------------------------------------------
+// C01 completion internals: the REAL complete_operation_as_success / complete_operation_as_failure (no recorder),
+// the REAL result callbacks invoked through the real boxed FnOnce, and the real `reset`.
+// Per-operation result slots: handler k records how often it ran, whether with Ok, and the packet id / number of
+// reason codes of the acknowledgement it was handed.
+// ------------------------------------------------------------------------------------------------
+
+static mut H_CALLS: [u32; 3] = [0; 3];
+static mut H_OK: [u32; 3] = [0; 3];
+static mut H_PID: [u16; 3] = [0; 3];
+static mut H_KIND: [u8; 3] = [0; 3];
+static mut H_CODES: [usize; 3] = [0; 3];
+
+fn h_reset() { unsafe { H_CALLS = [0; 3]; H_OK = [0; 3]; H_PID = [0; 3]; H_KIND = [0; 3]; H_CODES = [0; 3]; } }
+fn h_calls(k: usize) -> u32 { unsafe { H_CALLS[k] } }
+fn h_ok(k: usize) -> u32 { unsafe { H_OK[k] } }
+fn h_pid(k: usize) -> u16 { unsafe { H_PID[k] } }
+fn h_kind(k: usize) -> u8 { unsafe { H_KIND[k] } }
+fn h_codes(k: usize) -> usize { unsafe { H_CODES[k] } }
+
+fn err_kind(e: &GneissError) -> u8 {
+    match e {
+        GneissError::OfflineQueuePolicyFailed(_) => E_OFFLINE, GneissError::AckTimeout(_) => E_ACK_TIMEOUT, GneissError::ConnectionClosed(_) => E_CONN_CLOSED,
+        GneissError::MaxInterruptedRetriesExceeded(_) => E_RETRIES, GneissError::ClientClosed(_) => E_CLIENT_CLOSED, GneissError::PacketValidationFailure(_) => E_VALIDATION,
+        _ => E_OTHER,
+    }
+}
+
+/// kind: 0/1/2 = publish with that QoS, 3 = subscribe (one entry), 4 = unsubscribe (one entry)
+fn mk_recording_op(id: u64, pid: Option<u16>, kind: u8, slot: usize) -> ClientOperation {
+    let (packet, options) = match kind {
+        0 | 1 | 2 => {
+            let handler: ResponseHandler<PublishResult> = Box::new(move |res| {
+                unsafe {
+                    H_CALLS[slot] += 1;
+                    match &res {
+                        Ok(PublishResponse::Qos0) => { H_OK[slot] += 1; H_KIND[slot] = K_OK_QOS0; }
+                        Ok(PublishResponse::Qos1(p)) => { H_OK[slot] += 1; H_KIND[slot] = K_OK_PUBACK; H_PID[slot] = p.packet_id; }
+                        Ok(PublishResponse::Qos2(Qos2Response::Pubrec(p))) => { H_OK[slot] += 1; H_KIND[slot] = K_OK_PUBREC; H_PID[slot] = p.packet_id; }
+                        Ok(PublishResponse::Qos2(Qos2Response::Pubcomp(p))) => { H_OK[slot] += 1; H_KIND[slot] = K_OK_PUBCOMP; H_PID[slot] = p.packet_id; }
+                        Err(e) => { H_KIND[slot] = err_kind(e); }
+                    }
+                }
+                std::mem::forget(res);
+                Ok(())
+            });
+            (MqttPacket::Publish(PublishPacket { packet_id: pid.unwrap_or(0), qos: qos_of(kind), ..Default::default() }),
+             ClientOperationOptions::Publish(PublishOptionsInternal { options: PublishOptions::default(), response_handler: Some(handler) }))
+        }
+        3 => {
+            let handler: ResponseHandler<SubscribeResult> = Box::new(move |res| {
+                unsafe {
+                    H_CALLS[slot] += 1;
+                    match &res {
+                        Ok(p) => { H_OK[slot] += 1; H_KIND[slot] = K_OK_SUBACK; H_PID[slot] = p.packet_id; H_CODES[slot] = p.reason_codes.len(); }
+                        Err(e) => { H_KIND[slot] = err_kind(e); }
+                    }
+                }
+                std::mem::forget(res);
+                Ok(())
+            });
+            let mut sp = SubscribePacket { packet_id: pid.unwrap_or(0), ..Default::default() };
+            sp.subscriptions.push(Subscription { topic_filter: "a".to_string(), ..Default::default() });
+            (MqttPacket::Subscribe(sp), ClientOperationOptions::Subscribe(SubscribeOptionsInternal { options: SubscribeOptions::default(), response_handler: Some(handler) }))
+        }
+        _ => {
+            let handler: ResponseHandler<UnsubscribeResult> = Box::new(move |res| {
+                unsafe {
+                    H_CALLS[slot] += 1;
+                    match &res {
+                        Ok(p) => { H_OK[slot] += 1; H_KIND[slot] = K_OK_UNSUBACK; H_PID[slot] = p.packet_id; H_CODES[slot] = p.reason_codes.len(); }
+                        Err(e) => { H_KIND[slot] = err_kind(e); }
+                    }
+                }
+                std::mem::forget(res);
+                Ok(())
+            });
+            let mut up = UnsubscribePacket { packet_id: pid.unwrap_or(0), ..Default::default() };
+            up.topic_filters.push("a".to_string());
+            (MqttPacket::Unsubscribe(up), ClientOperationOptions::Unsubscribe(UnsubscribeOptionsInternal { options: UnsubscribeOptions::default(), response_handler: Some(handler) }))
+        }
+    };
+    ClientOperation { id, packet: Box::new(packet), qos2_pubrel: None, packet_id: pid, options: Some(options),
+        ping_extension_base_timepoint: None, slow_start_ack_value: 0, interruption_count: 0 }
+}
+
+/// Two written operations awaiting their acknowledgements: target (operation 3, slot 0, kind `kind`, id p1) and a bystander
+/// (operation 5, slot 1, kind `other`, id p2), both bound and reserved.
+fn real_two_pending(kind: u8, other: u8) -> (ProtocolState, u16, u16) {
+    h_reset();
+    let mut st = mk_state(ProtocolStateType::Connected);
+    let (p1, p2): (u16, u16) = (kani::any(), kani::any());
+    kani::assume(p1 != 0 && p2 != 0 && p1 != p2);
+    st.operations.insert(3, mk_recording_op(3, Some(p1), kind, 0));
+    st.allocated_packet_ids.insert(p1, 3);
+    if kind <= 2 { st.pending_publish_operations.insert(p1, 3); } else { st.pending_non_publish_operations.insert(p1, 3); }
+    // the bystander (operation 5) is represented by its table entries only: two boxed operations in the table at once
+    // exhaust memory (measured: 8 GB / 15 min without verdict); the completion functions reach another operation
+    // only through these tables
+    st.allocated_packet_ids.insert(p2, 5);
+    if other <= 2 { st.pending_publish_operations.insert(p2, 5); } else { st.pending_non_publish_operations.insert(p2, 5); }
+    (st, p1, p2)
+}
+
+fn real_target_gone_bystander_kept(st: &ProtocolState, p1: u16, p2: u16, other: u8) {
+    assert!(st.operations.len() == 0 && st.operations.get(&3).is_none(), "gv: a resolved operation is no longer tracked");
+    assert!(st.allocated_packet_ids.get(&p1).is_none() && st.allocated_packet_ids.get(&p2) == Some(&5) && st.allocated_packet_ids.len() == 1, "gv: resolving an operation releases exactly its own packet id");
+    assert!(st.pending_publish_operations.get(&p1).is_none() && st.pending_non_publish_operations.get(&p1).is_none(), "gv: a resolved operation no longer awaits an acknowledgement");
+    if other <= 2 { assert!(st.pending_publish_operations.get(&p2) == Some(&5), "gv: the other operation still awaits its acknowledgement"); }
+    else { assert!(st.pending_non_publish_operations.get(&p2) == Some(&5), "gv: the other operation still awaits its acknowledgement"); }
+    assert!(h_calls(1) == 0, "gv: resolving one operation must not resolve another");
+}
+
+fn real_fail_body(kind: u8, other: u8) {
+    let (mut st, p1, p2) = real_two_pending(kind, other);
+    let (err, ek) = (GneissError::new_offline_queue_policy_failed(), E_OFFLINE);
+    let r = st.complete_operation_as_failure(3, err);
+    assert!(r.is_ok());
+    assert!(h_calls(0) == 1 && h_ok(0) == 0, "gv: a failed operation's result is delivered exactly once, as an error");
+    assert!(h_kind(0) == ek, "gv: the error delivered is the error the engine failed the operation with");
+    real_target_gone_bystander_kept(&st, p1, p2, other);
+    // a second resolution attempt (late acknowledgement, timeout racing the ack, reset) must not deliver anything again
+    let r2 = st.complete_operation_as_failure(3, GneissError::new_client_closed());
+    assert!(r2.is_ok());
+    assert!(h_calls(0) == 1 && h_calls(1) == 0, "gv: no operation is resolved twice");
+    real_target_gone_bystander_kept(&st, p1, p2, other);
+    std::mem::forget(r); std::mem::forget(r2); std::mem::forget(st);
+}
+
+/// resp: 0 = none (QoS0 written), 1 = PUBACK, 2 = failing PUBREC, 3 = PUBCOMP, 4 = SUBACK, 5 = UNSUBACK
+fn real_success_body(kind: u8, other: u8, resp: u8) {
+    let (mut st, p1, p2) = real_two_pending(kind, other);
+    let response = match resp {
+        0 => None,
+        1 => Some(OperationResponse::Publish(PublishResponse::Qos1(PubackPacket { packet_id: p1, ..Default::default() }))),
+        2 => Some(OperationResponse::Publish(PublishResponse::Qos2(Qos2Response::Pubrec(PubrecPacket { packet_id: p1, reason_code: PubrecReasonCode::NotAuthorized, ..Default::default() })))),
+        3 => Some(OperationResponse::Publish(PublishResponse::Qos2(Qos2Response::Pubcomp(PubcompPacket { packet_id: p1, ..Default::default() })))),
+        4 => { let mut a = SubackPacket { packet_id: p1, ..Default::default() }; a.reason_codes.push(crate::mqtt::SubackReasonCode::GrantedQos1); Some(OperationResponse::Subscribe(a)) }
+        _ => { let mut a = UnsubackPacket { packet_id: p1, ..Default::default() }; a.reason_codes.push(crate::mqtt::UnsubackReasonCode::Success); Some(OperationResponse::Unsubscribe(a)) }
+    };
+    let r = st.complete_operation_as_success(3, response);
+    assert!(r.is_ok());
+    assert!(h_calls(0) == 1 && h_ok(0) == 1, "gv: a successful operation's result is delivered exactly once, as a success");
+    let expect_kind = match resp { 0 => K_OK_QOS0, 1 => K_OK_PUBACK, 2 => K_OK_PUBREC, 3 => K_OK_PUBCOMP, 4 => K_OK_SUBACK, _ => K_OK_UNSUBACK };
+    assert!(h_kind(0) == expect_kind, "gv: the success carries the acknowledgement the engine resolved the operation with");
+    if resp != 0 { assert!(h_pid(0) == p1, "gv: the acknowledgement delivered is the one for this operation's packet id"); }
+    if resp >= 4 { assert!(h_codes(0) == 1, "gv: one reason code per requested entry reaches the caller"); }
+    real_target_gone_bystander_kept(&st, p1, p2, other);
+    // late duplicate acknowledgement / racing timeout: nothing is delivered again
+    let r2 = st.complete_operation_as_failure(3, GneissError::new_client_closed());
+    assert!(r2.is_ok());
+    let r3 = st.complete_operation_as_success(3, None);
+    assert!(r3.is_err(), "gv: completing an operation that is no longer tracked is reported as an internal error");
+    assert!(h_calls(0) == 1 && h_calls(1) == 0, "gv: no operation is resolved twice");
+    std::mem::forget(r); std::mem::forget(r2); std::mem::forget(r3); std::mem::forget(st);
+}
+
+macro_rules! real_fail_harness { ($name:ident, $kind:expr, $other:expr) => {
+    #[kani::proof] #[kani::unwind(8)] #[kani::stub(std::fmt::format, stub_format)]
+    fn $name() { real_fail_body($kind, $other); }
+} }
+macro_rules! real_success_harness { ($name:ident, $kind:expr, $other:expr, $resp:expr) => {
+    #[kani::proof] #[kani::unwind(8)] #[kani::stub(std::fmt::format, stub_format)]
+    fn $name() { real_success_body($kind, $other, $resp); }
+} }
+
+// @gv props=C01,C06 tier=quick required=yes fns=ProtocolState::complete_operation_as_failure,complete_operation_with_error,ProtocolState::apply_ackable_completion,ProtocolState::apply_disconnect_completion
+// @gv bounds="REAL completion code and real boxed result callbacks: a written QoS1 PUBLISH (symbolic id p1) and a bystander SUBSCRIBE (p2) await acks; engine Connected; the publish is failed (offline-policy error), then failed again (late timeout / reset)"
+// @gv timeout=1200 mem=11 unwind=8 stubs="std::fmt::format -> stub_format"
+real_fail_harness!(c01_real_fail_q1, 1, 3);
+// @gv props=C01,C06 tier=quick required=no fns=ProtocolState::complete_operation_as_failure,complete_operation_with_error
+// @gv bounds="as c01_real_fail_q1 for a SUBSCRIBE with a QoS2 PUBLISH bystander"
+// @gv timeout=1200 mem=11 unwind=8 stubs="std::fmt::format -> stub_format"
+real_fail_harness!(c01_real_fail_sub, 3, 2);
+// @gv props=C01,C06 tier=thorough required=no fns=ProtocolState::complete_operation_as_failure,complete_operation_with_error
+// @gv bounds="as c01_real_fail_q1 for a QoS2 PUBLISH with an UNSUBSCRIBE bystander"
+// @gv timeout=1200 mem=11 unwind=8 stubs="std::fmt::format -> stub_format"
+real_fail_harness!(c01_real_fail_q2, 2, 4);
+// @gv props=C01,C06 tier=thorough required=no fns=ProtocolState::complete_operation_as_failure,complete_operation_with_error
+// @gv bounds="as c01_real_fail_q1 for an UNSUBSCRIBE with a QoS1 PUBLISH bystander"
+// @gv timeout=1200 mem=11 unwind=8 stubs="std::fmt::format -> stub_format"
+real_fail_harness!(c01_real_fail_unsub, 4, 1);
+
+// @gv props=C01,C06 tier=quick required=yes fns=ProtocolState::complete_operation_as_success,complete_operation_with_result,ProtocolState::apply_ackable_completion,ProtocolState::apply_ping_extension_on_operation_success,ProtocolState::apply_disconnect_completion
+// @gv bounds="REAL completion code and real boxed result callbacks: a written QoS1 PUBLISH (symbolic id p1) and a bystander SUBSCRIBE (p2); resolved with its PUBACK; then a late failure and a late success for the same operation"
+// @gv timeout=1200 mem=11 unwind=8 stubs="std::fmt::format -> stub_format"
+real_success_harness!(c01_real_ok_q1_puback, 1, 3, 1);
+// @gv props=C01,C06 tier=quick required=no fns=ProtocolState::complete_operation_as_success,complete_operation_with_result
+// @gv bounds="as c01_real_ok_q1_puback for a SUBSCRIBE resolved with its SUBACK (one reason code), QoS2 PUBLISH bystander"
+// @gv timeout=1200 mem=11 unwind=8 stubs="std::fmt::format -> stub_format"
+real_success_harness!(c01_real_ok_sub_suback, 3, 2, 4);
+// @gv props=C01,C06 tier=thorough required=no fns=ProtocolState::complete_operation_as_success,complete_operation_with_result
+// @gv bounds="as c01_real_ok_q1_puback for a QoS2 PUBLISH resolved with its PUBCOMP, UNSUBSCRIBE bystander"
+// @gv timeout=1200 mem=11 unwind=8 stubs="std::fmt::format -> stub_format"
+real_success_harness!(c01_real_ok_q2_pubcomp, 2, 4, 3);
+// @gv props=C01,C06 tier=thorough required=no fns=ProtocolState::complete_operation_as_success,complete_operation_with_result
+// @gv bounds="as c01_real_ok_q1_puback for a QoS2 PUBLISH resolved with a failing PUBREC"
+// @gv timeout=1200 mem=11 unwind=8 stubs="std::fmt::format -> stub_format"
+real_success_harness!(c01_real_ok_q2_pubrec_fail, 2, 3, 2);
+// @gv props=C01,C06 tier=thorough required=no fns=ProtocolState::complete_operation_as_success,complete_operation_with_result
+// @gv bounds="as c01_real_ok_q1_puback for an UNSUBSCRIBE resolved with its UNSUBACK"
+// @gv timeout=1200 mem=11 unwind=8 stubs="std::fmt::format -> stub_format"
+real_success_harness!(c01_real_ok_unsub_unsuback, 4, 1, 5);
+// @gv props=C01 tier=thorough required=no fns=ProtocolState::complete_operation_as_success,complete_operation_with_result
+// @gv bounds="as c01_real_ok_q1_puback for a QoS0 PUBLISH resolved as written (no acknowledgement)"
+// @gv timeout=1200 mem=11 unwind=8 stubs="std::fmt::format -> stub_format"
+real_success_harness!(c01_real_ok_q0_written, 0, 3, 0);
+
+
+// ------------------------------------------------------------------------------------------------
+// C01 batch completion: one operation's completion error must not leave the rest of the batch unresolved
+// ------------------------------------------------------------------------------------------------
+
+/// as stub_complete_success, but mirrors the real function's error for an operation that is no longer tracked
+fn stub_complete_success_missing_errs(this: &mut ProtocolState, id: u64, completion_result: Option<OperationResponse>) -> GneissResult<()> {
+    let tracked = this.operations.get(&id).is_some();
+    done_push(id, if completion_result.is_none() { K_OK_NONE } else { K_OK_QOS0 }, 0, 0);
+    std::mem::forget(completion_result);
+    if tracked { Ok(()) } else { Err(GneissError::new_internal_state_error("cannot complete an operation that does not exist")) }
+}
+
+/// as stub_complete_failure, but mirrors the real function's error result when the failed operation is the user's DISCONNECT
+fn stub_complete_failure_disconnect_errs(this: &mut ProtocolState, id: u64, error: GneissError) -> GneissResult<()> {
+    let is_disconnect = match this.operations.get(&id) { Some(o) => matches!(&*o.packet, MqttPacket::Disconnect(_)), None => false };
+    done_push(id, E_OTHER, 0, 0);
+    std::mem::forget(error);
+    if is_disconnect { Err(GneissError::new_user_initiated_disconnect()) } else { Ok(()) }
+}
+
+// @gv props=C01 tier=quick required=yes fns=ProtocolState::handle_network_event_write_completion,ProtocolState::complete_operation_sequence_as_empty_success,fold_mqtt_result
+// @gv bounds="write completion with a batch of two flushed operations of which the FIRST was already resolved (e.g. by its ack timeout during a slow write) and the second is a tracked QoS0 publish; completion recorded (returns the real function's error for the untracked one); engine Connected or PendingDisconnect"
+// @gv timeout=900 mem=8
+#[kani::proof]
+#[kani::unwind(16)]
+#[kani::stub(std::fmt::format, stub_format)]
+#[kani::stub(super::ProtocolState::complete_operation_as_success, stub_complete_success_missing_errs)]
+#[kani::stub(super::ProtocolState::complete_operation_as_failure, stub_complete_failure)]
+fn c01_write_completion_batch_survives_error() {
+    done_reset();
+    let mut st = mk_state(if kani::any() { ProtocolStateType::Connected } else { ProtocolStateType::PendingDisconnect });
+    st.operations.insert(7, mk_publish_op(7, None, QualityOfService::AtMostOnce, false));
+    st.pending_write_completion_operations.push_back(4);     // no longer tracked
+    st.pending_write_completion_operations.push_back(7);
+    st.pending_write_completion = true;
+    let mut events: VecDeque<PacketEvent> = VecDeque::new();
+    let r = { let ctx = net_ctx(&mut events, zero_instant()); st.handle_network_event_write_completion(&ctx) };
+    assert!(done_n() == 2 && done(0).0 == 4 && done(1).0 == 7, "gv: every operation of a flushed batch is resolved, also after an earlier one reported an error");
+    assert!(done(1).1 == K_OK_NONE, "gv: a flushed QoS0 publish succeeds without an acknowledgement");
+    assert!(r.is_err(), "gv: the internal error is still reported");
+    assert!(st.pending_write_completion_operations.is_empty() && !st.pending_write_completion);
+    std::mem::forget(r); std::mem::forget(events); std::mem::forget(st);
+}
+
+// @gv props=C01,C15 tier=quick required=yes fns=ProtocolState::complete_operation_sequence_as_failure,fold_mqtt_result
+// @gv bounds="failing a batch of two operations where failing the first (the user's DISCONNECT) returns the user-initiated-disconnect error: the second (a tracked SUBSCRIBE) must still be failed; completion recorded"
+// @gv timeout=900 mem=8
+#[kani::proof]
+#[kani::unwind(16)]
+#[kani::stub(std::fmt::format, stub_format)]
+#[kani::stub(super::ProtocolState::complete_operation_as_success, stub_complete_success)]
+#[kani::stub(super::ProtocolState::complete_operation_as_failure, stub_complete_failure_disconnect_errs)]
+fn c01_failure_batch_survives_error() {
+    done_reset();
+    let mut st = mk_state(ProtocolStateType::Disconnected);
+    st.operations.insert(4, mk_internal_op(4, MqttPacket::Disconnect(DisconnectPacket { ..Default::default() })));
+    st.operations.insert(7, mk_subscribe_op(7, None));
+    let mut batch: VecDeque<u64> = VecDeque::with_capacity(4);
+    batch.push_back(4); batch.push_back(7);
+    let r = st.complete_operation_sequence_as_failure(batch.into_iter(), GneissError::new_offline_queue_policy_failed);
+    assert!(done_n() == 2 && done(0).0 == 4 && done(1).0 == 7, "gv: every operation of a failed batch is resolved, also after an earlier one reported an error");
+    assert!(r.is_err());
+    std::mem::forget(r); std::mem::forget(st);
+}
